@@ -6,6 +6,9 @@ CONSTANTS Src = {"g"}
           Gated = {"g"}
           MaxH = 1
           EmitOn = "edge"
+          GovChains = {"g","t"}
+          RelayOn = FALSE
+          Silent = {"v","r"}
 VIEW View
 INVARIANT TypeOK
 PROPERTY PropC20 PropC21 PropC22
